@@ -83,17 +83,19 @@ def null_beliefs(mod, names):
                             beliefs[n].setdefault(o[1], ('compared with NULL', loc(mod, ins, n)))
     # pointers the public interface allows to be null (property C03/C04: "destination ... or null instead of the source",
     # scratch buffer defaults to NULL in ntt_goldilocks.hpp): frozen table, one reason per entry
-    API_NULLABLE = {'NTT': {'%dst': 'C03: destination may be null (in place)', '%buffer': 'default argument buffer = NULL'},
-                    'INTT': {'%dst': 'C04: a null destination means in place', '%buffer': 'default argument buffer = NULL'},
-                    'extendPol': {'%buffer': 'default argument buffer = NULL'}}
+    # (function, 0-based parameter position after `this`, documented name, reason)
+    API_NULLABLE = {'NTT': [(0, 'dst', 'C03: destination may be null (in place)'), (4, 'buffer', 'default argument buffer = NULL')],
+                    'INTT': [(0, 'dst', 'C04: a null destination means in place'), (4, 'buffer', 'default argument buffer = NULL')],
+                    'extendPol': [(5, 'buffer', 'default argument buffer = NULL')]}
     missing = []
     for n, fi in infos.items():
         m = re.match(r'NTT_Goldilocks::(\w+)\(', mod.dem[n])
-        for p, why in API_NULLABLE.get(m.group(1) if m else '', {}).items():
-            if p in fi.params:
-                beliefs[n].setdefault(p, (why, '%s:%s' % (front.rel(mod.fn_loc(n)[0]), mod.fn_loc(n)[1])))
+        ps = [pn for t, pn in fi.fn.params][1:]
+        for pos, doc, why in API_NULLABLE.get(m.group(1) if m else '', []):
+            if pos < len(ps) and fi.fn.params[pos + 1][0][0] == 'p':
+                beliefs[n].setdefault(ps[pos], (why, '%s:%s' % (front.rel(mod.fn_loc(n)[0]), mod.fn_loc(n)[1])))
             else:
-                missing.append('%s %s' % (m.group(1), p))
+                missing.append('%s parameter #%d (%s)' % (m.group(1), pos, doc))
     beliefs['__missing__'] = missing
     return beliefs, infos
 
@@ -667,18 +669,20 @@ def rule_intt_null(rep):
             rep.incomplete('intt-forward', 'R-FORWARD', loc(mod, fi.fn.blocks[fi.fn.order[0]][0], n), 'INTT does not forward to NTT exactly once (%d calls)' % len(calls))
             continue
         b, ins = calls[0]
-        cal = mod.fn(callee_name(ins))
-        pn = [p for t, p in cal.params]
-        args = dict(zip(pn, ins.a[1:]))
+        # positional: NTT(this, dst, src, size, ncols, buffer, nphase, nblock, inverse, extend); INTT(this, dst, src, ...)
+        a = ins.a[1:]
+        my = [p for t, p in fi.fn.params]
         probs = []
-        if args.get('%inverse') != ('i', 1):
-            probs.append('inverse flag passed to NTT is %r, not true' % (args.get('%inverse'),))
-        d = args.get('%dst')
-        org = origins(fi, d) if d else set()
-        if not ({'param:%src', 'param:%dst'} <= org):
-            probs.append('destination passed to NTT does not select between dst and src (origins %s)' % sorted(org))
-        if args.get('%src') != ('r', '%src'):
-            probs.append('source is not forwarded unchanged')
+        if len(a) < 10 or len(my) < 3:
+            probs.append('unexpected arity of the forwarding call')
+        else:
+            if a[8] != ('i', 1):
+                probs.append('inverse flag passed to NTT is %r, not true' % (a[8],))
+            org = origins(fi, a[1])
+            if not ({'param:' + my[1], 'param:' + my[2]} <= org):
+                probs.append('destination passed to NTT does not select between dst and src (origins %s)' % sorted(org))
+            if a[2] != ('r', my[2]):
+                probs.append('source is not forwarded unchanged')
         (rep.refute if probs else rep.ok)('intt-forward', 'R-FORWARD', loc(mod, ins, n),
                                           '; '.join(probs) if probs else 'INTT = NTT(dst==NULL ? src : dst, src, ..., inverse=true, extend)')
 
